@@ -372,7 +372,7 @@ theorem cutIfLong_ok {ds ds' : DSetData} {x : Nat} (hv : ValidSet ds) (hdim : ds
     have r01 := hv.range 0 _ (by omega) r1.1 r1.2
     have vb : b = ds.opU 0 (ds.opU 1 x) := rb.2.2.2.1.symm
     subst vb
-    obtain ⟨v', s', d', _, _, f'⟩ := cutFace_commutes hv hdim r0.1 r0.2 r01.1 r01.2 k4
+    obtain ⟨v', s', d', _, _, f', _⟩ := cutFace_commutes hv hdim r0.1 r0.2 r01.1 r01.2 k4
     exact ⟨v', d', f' hf, by omega⟩
   · have : ds = ds' := by
       have k1' : (Outcome.ok ds : Outcome DSetData) = .ok ds' := k1
@@ -837,7 +837,8 @@ theorem mergeAll_preserves (hw : InnerWallsAreFaces) {ds s : DSetData} (hax : Ax
     exact a6
 
 
-/-! ### witnesses for the non-vacuity examples of Props/C16 (states reached by the real pipeline) -/
+/-! ### witnesses for the non-vacuity examples of Props/C16 (states reached by the real pipeline;
+`exFacets` is hand-made: chambers 1-4 form a (2,3)-orbit of length 2, chambers 5-8 two of length 1) -/
 
 /-- Boolean form of `FarCommute` -/
 def farCommuteB (s : DSetData) : Bool :=
@@ -871,27 +872,15 @@ theorem returnsDSet_exists {x : Step} (h : returnsDSet x = true) : ∃ s, x = .o
   · cases h
 
 def exFacets : DSetData :=
-  { size := 20, dim := 3,
-    op := #[2, 2, 4, 6,
-      1, 1, 3, 5,
-      4, 4, 2, 10,
-      3, 3, 1, 9,
-      6, 6, 12, 2,
-      5, 5, 11, 1,
-      8, 8, 20, 14,
-      7, 7, 19, 13,
-      10, 10, 16, 4,
-      9, 9, 15, 3,
-      12, 12, 6, 16,
-      11, 11, 5, 15,
-      14, 14, 18, 8,
-      13, 13, 17, 7,
-      16, 16, 10, 12,
-      15, 15, 9, 11,
-      18, 18, 14, 20,
-      17, 17, 13, 19,
-      20, 20, 8, 18,
-      19, 19, 7, 17] }
+  { size := 8, dim := 3,
+    op := #[2, 5, 2, 3,
+      1, 7, 1, 4,
+      4, 6, 4, 1,
+      3, 8, 3, 2,
+      7, 1, 6, 6,
+      8, 3, 5, 5,
+      5, 2, 8, 8,
+      6, 4, 7, 7] }
 
 def exAll : DSetData :=
   { size := 12, dim := 3,
@@ -967,30 +956,22 @@ def exFnd : DSetData :=
       7, 21, 2, 20] }
 
 def exTiles : DSetData :=
-  { size := 24, dim := 3,
+  { size := 16, dim := 3,
     op := #[2, 3, 4, 5,
       1, 6, 7, 8,
-      9, 1, 10, 11,
-      7, 10, 1, 12,
-      8, 11, 13, 1,
-      14, 2, 15, 16,
-      4, 15, 2, 19,
-      5, 16, 21, 2,
-      3, 14, 17, 18,
-      17, 4, 3, 20,
-      18, 5, 19, 3,
-      19, 20, 18, 4,
-      21, 19, 5, 15,
-      6, 9, 22, 23,
-      22, 7, 6, 13,
-      23, 8, 24, 6,
-      10, 22, 9, 24,
-      11, 23, 12, 9,
-      12, 13, 11, 7,
-      24, 12, 23, 10,
-      13, 24, 8, 22,
-      15, 17, 14, 21,
-      16, 18, 20, 14,
-      20, 21, 16, 17] }
+      6, 1, 9, 10,
+      7, 9, 1, 11,
+      8, 10, 12, 1,
+      3, 2, 13, 14,
+      4, 13, 2, 15,
+      5, 14, 16, 2,
+      13, 4, 3, 16,
+      14, 5, 15, 3,
+      15, 16, 14, 4,
+      16, 15, 5, 13,
+      9, 7, 6, 12,
+      10, 8, 11, 6,
+      11, 12, 10, 7,
+      12, 11, 8, 9] }
 
 end DSymVerif.Simp
